@@ -168,3 +168,6 @@ func I(s string) int64 {
 	}
 	return v
 }
+
+// Profile selects a generator profile (VERIF_PROFILE), "" = default mix.
+func Profile() string { return os.Getenv("VERIF_PROFILE") }
